@@ -138,6 +138,16 @@ def step (st : St) (line : String) : IO St := do
     if small "fmg_two_level_diff" 1e-9 == some false then
       IO.println s!"ORACLE C09 two-level FMG start vector is not the interpolated coarse solution ({line.trimAscii})"
       st := { st with oracleFails := st.oracleFails + 1 }
+    match kv rest "operator_symmetry_defect" with
+    | some d =>
+      let defect := hexF d; let scale := hexF ((kv rest "scale").getD ""); let energy := hexF ((kv rest "energy").getD "")
+      if !(defect ≤ 1e-9 * scale + 1e-300) then
+        IO.println s!"ORACLE C05 the operator a solver object holds after this history is not symmetric on the unknowns that are non-Dirichlet in the configured mode: |<Ax,y> - <x,Ay>| = {defect} at scale {scale} ({line.trimAscii})"
+        st := { st with oracleFails := st.oracleFails + 1 }
+      if !(energy > 0.0) then
+        IO.println s!"ORACLE C05 <A x, x> = {energy} is not positive for a non-zero x on the operator a solver object holds ({line.trimAscii})"
+        st := { st with oracleFails := st.oracleFails + 1 }
+    | none => pure ()
     match kv rest "second_solve_it", kv rest "first_solve_it" with
     | some i2, some i1 =>
       let maxit := toNat! ((kv rest "maxit").getD ""); let it2 := toNat! i2; let it1 := toNat! i1
